@@ -236,6 +236,15 @@ pub fn gen_c17(sh: &mut Shards, o: &Opts) -> serde_json::Value {
         let mut t = q;
         t[p[1]] = t[p[0]];
         px.push(t);
+        // near ties: two channels a few ulps apart (the sextant boundaries from both sides; hue wraps at 0/360)
+        for d in [1i32, -1, 3, -3] {
+            let mut t = q;
+            t[p[1]] = f32::from_bits((t[p[2]].to_bits() as i32 + d).max(0) as u32).clamp(0.0, 1.0);
+            px.push(t);
+            let mut t = q;
+            t[p[1]] = f32::from_bits((t[p[0]].to_bits() as i32 + d).max(0) as u32).clamp(0.0, 1.0);
+            px.push(t);
+        }
         // near-grey and near-black / near-white
         let g = rng.f32_in(0.0, 1.0);
         let e = rng.f32_in(0.0, 0.02);
